@@ -24,6 +24,8 @@
 package main
 
 import (
+	"crypto/sha1"
+	"encoding/hex"
 	"encoding/json"
 	"fmt"
 	"go/ast"
@@ -700,12 +702,19 @@ type report struct {
 	Constructors map[string]any      `json:"constructors"`
 	Files        []string            `json:"files"`
 	Wiring       map[string][]string `json:"wiring"`
+	FuncHashes   map[string]string   `json:"func_hashes"`
 }
 
 func exprText(fset *token.FileSet, e ast.Expr) string {
 	var b strings.Builder
 	printer.Fprint(&b, fset, e)
 	return strings.Join(strings.Fields(b.String()), " ")
+}
+
+func nodeText(fset *token.FileSet, n ast.Node) string {
+	var b strings.Builder
+	printer.Fprint(&b, fset, n)
+	return b.String()
 }
 
 func parseFile(fset *token.FileSet, path string) *ast.File {
@@ -916,6 +925,32 @@ func main() {
 		w("")
 		rep.Translated = append(rep.Translated, name)
 	}
+	// ---- validators
+	section("Valid")
+	known := map[string]bool{}
+	for _, vf := range []string{"initializers.go", "accessors.go", "shape_modifiers.go", "operators.go", "reducers.go"} {
+		p := filepath.Join(root, "tensor/internal/validator", vf)
+		f := parseFile(fset, p)
+		rep.Files = append(rep.Files, p)
+		for _, d := range f.Decls {
+			fd, ok := d.(*ast.FuncDecl)
+			if !ok || fd.Recv != nil || !fd.Name.IsExported() {
+				continue
+			}
+			name := "validator." + fd.Name.Name
+			def, err := translateValidator(fset, fd, known)
+			if err != nil {
+				rep.Untranslated[name] = err.Error()
+				continue
+			}
+			w("/-- tensor/internal/validator/" + vf + " -/")
+			w(def)
+			w("")
+			known[fd.Name.Name] = true
+			rep.Translated = append(rep.Translated, name)
+		}
+	}
+
 	// ---- wiring of the public operations (cputensor.go): which validators run, which raw operation computes the
 	// value, which gradtrack constructor supplies the context — in source order, as plain text
 	cpPath := filepath.Join(root, "tensor/internal/cputensor/cputensor.go")
@@ -955,6 +990,42 @@ func main() {
 			return true
 		})
 		rep.Wiring[fd.Name.Name] = facts
+	}
+	// ---- fingerprint of every function of the library (comments and formatting ignored): tells a check WHICH functions
+	// differ from the source the model was last reviewed against
+	rep.FuncHashes = map[string]string{}
+	for _, top := range []string{"tensor", "component"} {
+		filepath.Walk(filepath.Join(root, top), func(p string, info os.FileInfo, err error) error {
+			if err != nil || info.IsDir() || !strings.HasSuffix(p, ".go") || strings.HasSuffix(p, "_test.go") ||
+				strings.Contains(p, "_test"+string(filepath.Separator)) {
+				return nil
+			}
+			fs2 := token.NewFileSet()
+			f, perr := parser.ParseFile(fs2, p, nil, 0)
+			if perr != nil {
+				return nil
+			}
+			rel, _ := filepath.Rel(root, p)
+			for _, d := range f.Decls {
+				var key string
+				switch dd := d.(type) {
+				case *ast.FuncDecl:
+					recv := ""
+					if dd.Recv != nil && len(dd.Recv.List) == 1 {
+						recv = exprText(fs2, dd.Recv.List[0].Type) + "."
+					}
+					key = rel + ":" + recv + dd.Name.Name
+				case *ast.GenDecl:
+					if dd.Tok == token.IMPORT {
+						continue
+					}
+					key = rel + ":decl@" + strings.SplitN(nodeText(fs2, dd), "\n", 2)[0]
+				}
+				h := sha1.Sum([]byte(nodeText(fs2, d)))
+				rep.FuncHashes[key] = hex.EncodeToString(h[:8])
+			}
+			return nil
+		})
 	}
 	sort.Strings(rep.Translated)
 	sort.Strings(rep.Files)
